@@ -1165,3 +1165,62 @@ example : matVec 3 (fun r c => (⟨(r + 2 * c : ℕ), 1⟩ : CRat)) (oneHot 2) 1
     ofFlat2 2 (entries2 2 2 fun i j => (⟨(i : ℕ), (j : ℕ)⟩ : CRat)).toArray 1 0 = ⟨1, 0⟩ := by decide +kernel
 
 end Yaqs.Heff
+
+/-!
+## The write list of the Lanczos loop (tied by the `lanczosw` request)
+
+`exit_logic` bounds the indices of `beta` that are touched; this says exactly which ones are written: the loop has written
+`beta[0], …, beta[min(k, m_max − 1) − 1]` when it leaves with subspace size `k` — every off-diagonal entry of the `k × k`
+tridiagonal matrix handed to `eigh_tridiagonal` (`beta[:k-1]`) has been written before it is read, and nothing beyond the array.
+The correspondence check compares this list with the entries of the real `beta` array that are non-zero after the call.
+-/
+namespace Yaqs.Krylov
+
+private theorem writes_loop (mMax : Nat) (epsCut tol : Rat) (β φ : Nat → Rat) :
+    ∀ (n j : Nat) (rd wr : List Nat) (ns : Nat), n + j = mMax → wr = List.range (min j (mMax - 1)) →
+      (lanczosLoop mMax epsCut tol β φ n j rd wr ns).writes
+        = List.range (min (lanczosLoop mMax epsCut tol β φ n j rd wr ns).k (mMax - 1)) := by
+  intro n
+  induction n with
+  | zero =>
+    intro j rd wr ns hnj hwr
+    have hj : j = mMax := by omega
+    subst hj
+    rw [lanczosLoop]
+    split <;> simpa using hwr
+  | succ n ih =>
+    intro j rd wr ns hnj hwr
+    have hwr1 : (if j < mMax - 1 then wr ++ [j] else wr) = List.range (min (j + 1) (mMax - 1)) := by
+      split
+      · rename_i h
+        rw [hwr, Nat.min_eq_left (by omega), Nat.min_eq_left (by omega), List.range_succ]
+      · rename_i h
+        rw [hwr, Nat.min_eq_right (by omega), Nat.min_eq_right (by omega)]
+    simp only [lanczosLoop]
+    rw [hwr1]
+    split_ifs <;> first | rfl | exact ih (j + 1) _ _ _ (by omega) rfl
+
+/-- **C19.1b `lanczos_writes_prefix`** the entries of `beta` written by the Lanczos loop of `expm_krylov` are exactly
+    `0, …, min(k, m_max − 1) − 1`, in this order, for every exit (`k` = subspace size): in particular all of `beta[:k-1]`,
+    which the tridiagonal eigen-solver reads, has been written, and `beta[m_max − 1]` (outside the array) never is. -/
+theorem lanczos_writes_prefix (mMax : Nat) (epsCut tol : Rat) (β φ : Nat → Rat) (e : Exit)
+    (h : lanczosExit false mMax epsCut tol β φ = some e) :
+    e.writes = List.range (min e.k (mMax - 1)) ∧ (∀ i, i + 1 < e.k → i ∈ e.writes) := by
+  unfold lanczosExit at h
+  simp only [Bool.false_eq_true, if_false] at h
+  by_cases hm : mMax = 0
+  · simp [hm] at h
+  · rw [if_neg hm] at h
+    have he : e = lanczosLoop mMax epsCut tol β φ mMax 0 [] [] 0 := (Option.some.inj h).symm
+    have hw := writes_loop mMax epsCut tol β φ mMax 0 [] [] 0 rfl (by simp)
+    rw [← he] at hw
+    have hk := (exit_logic mMax epsCut tol β φ e (by unfold lanczosExit; simp [hm, he])).2.2
+    refine ⟨hw, fun i hi => ?_⟩
+    rw [hw, List.mem_range]
+    omega
+
+example : (lanczosExit false 4 (1 / 1000) (1 / 100) (fun _ => 1) (fun _ => 1)).map (·.writes) = some [0, 1, 2] := by
+  decide +kernel
+
+end Yaqs.Krylov
+
